@@ -277,13 +277,15 @@ func runChunk(plan *Plan, first, last int) (tr.M, bool, error) {
 		switch s.Ev {
 		case "s2m", "rt", "m2s", "m2q", "q2m":
 			tableSegment(out, plan, k, s)
-		case "memd", "memp", "memr":
+		case "memd", "memp", "memr", "memw":
 			rng := rand.New(rand.NewSource(plan.Seed*100003 + int64(k)))
 			for j := s.Lo; j <= s.Hi; j++ {
 				var capacity int64
 				switch s.Ev {
 				case "memd":
 					capacity = 1<<20 + j
+				case "memw":
+					capacity = int64(1)<<uint(s.P) + j
 				case "memp":
 					capacity = fromLimbs(plan.Pow2Caps[j-1])
 				case "memr":
